@@ -381,8 +381,35 @@ def _n5_function(fn: ast.AST):
                     if not (isinstance(s, ast.Assign) and len(s.targets) == 1 and isinstance(s.targets[0], ast.Name)):
                         continue
                     v = s.targets[0].id
-                    if stores.get(v) != 1 or v in params or v in nested or not pure_call_ok(s.value):
+                    if v in params or v in nested or not pure_call_ok(s.value) or stores.get(v, 0) > 4:
                         continue
+                    if stores.get(v) != 1:
+                        # several definitions are fine when each one only feeds the statements that follow it in its own block
+                        # (the same temporary written in two loops / two arms)
+                        all_loads = [x for x in ast.walk(fn) if isinstance(x, ast.Name) and x.id == v and isinstance(x.ctx, ast.Load)]
+                        defs_v = []
+                        for node2 in ast.walk(fn):
+                            for _f2, b2 in _blocks(node2):
+                                for i2, s2 in enumerate(b2):
+                                    if isinstance(s2, ast.Assign) and len(s2.targets) == 1 and isinstance(s2.targets[0], ast.Name) and s2.targets[0].id == v:
+                                        defs_v.append((b2, i2))
+                        if len(defs_v) != stores.get(v):
+                            continue
+                        covered = []
+                        for b2, i2 in defs_v:
+                            ids2 = {id(y) for st2 in b2[i2 + 1:] for y in ast.walk(st2)}
+                            covered.append({id(x) for x in all_loads if id(x) in ids2})
+                        if sum(len(c_) for c_ in covered) != len(all_loads) or len(set().union(*covered)) != len(all_loads):
+                            continue
+                        # ... and no definition sits in the region another one feeds (a conditional re-assignment reaches the same uses)
+                        nested_def = False
+                        def_stmts = [b2[i2] for b2, i2 in defs_v]
+                        for b2, i2 in defs_v:
+                            region = {id(y) for st2 in b2[i2 + 1:] for y in ast.walk(st2)}
+                            if any(id(d_) in region for d_ in def_stmts if d_ is not b2[i2]):
+                                nested_def = True
+                        if nested_def:
+                            continue
                     if isinstance(s.value, (ast.Constant, ast.List, ast.Dict, ast.Set, ast.Tuple)) or isinstance(s.value, ast.Name):
                         continue        # literals / plain aliases: containers are mutable objects, aliases are handled by the typer
                     if isinstance(s.value, ast.Call) and isinstance(s.value.func, ast.Name) and s.value.func.id in (
@@ -396,6 +423,8 @@ def _n5_function(fn: ast.AST):
                     later = b[i + 1:]
                     inside = {id(x) for st in later for x in ast.walk(st)}
                     loads = [x for x in ast.walk(fn) if isinstance(x, ast.Name) and x.id == v and isinstance(x.ctx, ast.Load)]
+                    if stores.get(v) != 1:
+                        loads = [x for x in loads if id(x) in inside]
                     if len(loads) < 1 or not all(id(x) in inside for x in loads):
                         continue
                     # loops containing the definition re-execute it: uses must not be reached from an earlier iteration -> fine,
@@ -598,6 +627,12 @@ _in_test_position: Dict[int, bool] = {}
 
 
 class _NotCmp(ast.NodeTransformer):
+    def visit_FunctionDef(self, fn):
+        if fn.name in ('__ne__', '__eq__'):
+            return fn          # `return not (self == other)` IS the definition of !=: leave comparison methods alone
+        self.generic_visit(fn)
+        return fn
+
     """not (a in b) -> a not in b;  not (a == b) -> a != b;  not (a is b) -> a is not b;  not not x stays (truthiness)."""
     def visit_UnaryOp(self, n):
         self.generic_visit(n)
